@@ -33,17 +33,19 @@ def main(tier):
     prod = funcs.produce("drv_codec", argsets)
     funcs.san_failures(chk, prod, "codec")
     files = [p for p, n, rc, err in prod if n > 0]
+    _, dn = funcs.survey(chk, files, lambda ev: len(ev.get("in", ev.get("text", []))) >= 2 and ev.get("e") != "Dec")
     out = funcs.judge_files(chk, "TraceCodec", "TraceCodec_FALSE.cfg", files, "codec",
                             sigfn=lambda ev: "%s:%s:len%d:cap%s" % (ev.get("e"), ev.get("codec"), len(ev.get("in", ev.get("text", []))), ev.get("cap")))
     chk.cov["evaluations"] = out["events"]
     chk.cov["events_by_mode"] = {}
     for (p, n, rc, err), a in zip(prod, argsets):
         chk.cov["events_by_mode"][a[0]] = chk.cov["events_by_mode"].get(a[0], 0) + n
-    chk.cov["distinct_nontrivial"] = chk.cov["events_by_mode"].get("pairs", 0) + chk.cov["events_by_mode"].get("long", 0)
-    chk.cov["exhaustive"] = ("all inputs of length 0 and 1 at all capacities; " +
+    chk.cov["distinct_nontrivial"] = dn
+    chk.cov["exhaustive"] = not q
+    chk.cov["exhaustive_what"] = ("all inputs of length 0 and 1 at all capacities; " +
                              ("a seeded 1/16 of all 65536 byte pairs" if q else "all 65536 byte pairs") + " per codec")
-    chk.cov["rule"] = ("one evaluation = one recorded encoder / decoder / chunk-loop call judged by TLC; non-trivial = calls "
-                       "with multi-block inputs (byte pairs in block positions, lengths up to 4096, limited capacities)")
+    chk.cov["rule"] = ("one evaluation = one recorded encoder / decoder / chunk-loop call judged by TLC; non-trivial = distinct "
+                       "encoder / chunk-loop events whose input has at least 2 bytes")
     # binding: a sample of the same events against the reference encoding
     prod2 = funcs.produce("drv_codec", [["short", seed, 0, 8, 64], ["pairs", seed + 1, 0, 16, 256], ["long", seed + 2, 0, 64, 200]])
     d = funcs.judge_files(chk, "TraceCodec", "TraceCodec_TRUE.cfg", [p for p, n, rc, e in prod2 if n > 0], "codec", drift=True)
